@@ -262,39 +262,35 @@ fn tree_names(p: &Arc<dyn ExecutionPlan>, foreign: bool, out: &mut Vec<String>, 
     }
 }
 
+/// Execute every partition (concurrently, as the engine does) and collect its rows.
 async fn drain(plan: &Arc<dyn ExecutionPlan>, ctx: &Arc<TaskContext>) -> Vec<std::result::Result<Vec<Row>, String>> {
     let n = plan.properties().output_partitioning().partition_count();
-    let mut out = vec![];
-    for p in 0..n {
-        match plan.execute(p, ctx.clone()) {
-            Err(e) => out.push(Err(format!("execute: {e}"))),
-            Ok(mut s) => {
-                let declared = s.schema();
-                let mut rows = vec![];
-                let mut err = None;
-                while let Some(b) = s.next().await {
-                    match b {
-                        Ok(b) => {
-                            if !same_schema(b.schema().as_ref(), declared.as_ref()) {
-                                err = Some(format!("batch schema {:?} differs from the stream's declared schema {:?}", schema_json(&b.schema()), schema_json(&declared)));
-                                break;
+    let one = |p: usize| {
+        let plan = plan.clone();
+        let ctx = ctx.clone();
+        async move {
+            match plan.execute(p, ctx) {
+                Err(e) => Err(format!("execute: {e}")),
+                Ok(mut s) => {
+                    let declared = s.schema();
+                    let mut rows = vec![];
+                    while let Some(b) = s.next().await {
+                        match b {
+                            Ok(b) => {
+                                if !same_schema(b.schema().as_ref(), declared.as_ref()) {
+                                    return Err(format!("batch schema {:?} differs from the stream's declared schema {:?}", schema_json(&b.schema()), schema_json(&declared)));
+                                }
+                                rows.extend(batches_to_rows(&[b]));
                             }
-                            rows.extend(batches_to_rows(&[b]));
-                        }
-                        Err(e) => {
-                            err = Some(e.to_string());
-                            break;
+                            Err(e) => return Err(e.to_string()),
                         }
                     }
+                    Ok(rows)
                 }
-                out.push(match err {
-                    None => Ok(rows),
-                    Some(e) => Err(e),
-                });
             }
         }
-    }
-    out
+    };
+    futures::future::join_all((0..n).map(one)).await
 }
 
 /// The physical plan of one generated query: native vs wrapped (whole tree forced foreign).
@@ -342,6 +338,7 @@ pub fn plan_case(cx: &Cx, case: &Case, idx: u64) {
             }
         }
         Ok(Ok((na, nb, pa, pb, sa, sb, ra, rb))) => {
+            let (ra_ok, rb_ok) = (ra.is_some(), rb.is_some());
             cx.method("ForeignExecutionPlan::{name,properties,children,execute,partition_statistics}");
             cx.rep.count("plan.plans", 1);
             if na != nb {
@@ -356,7 +353,12 @@ pub fn plan_case(cx: &Cx, case: &Case, idx: u64) {
                 _ => {}
             }
             let (Some(ra), Some(mut rb)) = (ra, rb) else {
+                // never a verdict: recorded with the query so that it can be looked at
                 cx.rep.case(fp, false);
+                cx.rep.count("plan.exceeded-the-60s-guard", 1);
+                if cx.rep.get_count("plan.exceeded-the-60s-guard") <= 3 {
+                    cx.rep.extra(&format!("plan_timeout_sample_{}", cx.rep.get_count("plan.exceeded-the-60s-guard")), json!({"sql": sql, "tables": dfv::engine::db_to_json(&case.db), "layout": json!(case.layout), "native_finished": ra_ok, "foreign_finished": rb_ok}));
+                }
                 cx.rep.inconclusive("a plan exceeded the 60 s guard");
                 return;
             };
